@@ -60,10 +60,40 @@ type Scenario struct {
 	Switch       int      `json:"switch_den"`
 }
 
-var keyNames = []string{"ed25519", "ecdsa", "rsa"}
+// keyNames: three plain keys (the generators draw from the first three) and
+// a user certificate for the ed25519 key, signed by the host key.
+var keyNames = []string{"ed25519", "ecdsa", "rsa", "ed25519-cert"}
+
+const certAlgoSuffix = "-cert-v01@openssh.com"
+
+var certSigner ssh.Signer
+
+func init() {
+	cert := &ssh.Certificate{Key: sshsim.Signers["ed25519"].PublicKey(), CertType: ssh.UserCert, KeyId: "verif", ValidBefore: ssh.CertTimeInfinity}
+	if err := cert.SignCert(strings.NewReader(strings.Repeat("x", 4096)), sshsim.HostKey); err != nil {
+		panic(err)
+	}
+	var err error
+	if certSigner, err = ssh.NewCertSigner(cert, sshsim.Signers["ed25519"]); err != nil {
+		panic(err)
+	}
+}
+
+func signerOf(name string) ssh.Signer {
+	if name == "ed25519-cert" {
+		return certSigner
+	}
+	return sshsim.Signers[name]
+}
+
+// underlying is the signature algorithm behind a (possibly certificate)
+// public key algorithm name.
+func underlying(algo string) string { return strings.TrimSuffix(algo, certAlgoSuffix) }
 
 func algosFor(key string) []string {
 	switch key {
+	case "ed25519-cert":
+		return []string{"ssh-ed25519" + certAlgoSuffix}
 	case "ed25519":
 		return []string{"ssh-ed25519"}
 	case "ecdsa":
@@ -76,7 +106,7 @@ func algosFor(key string) []string {
 var allPKAlgos = []string{"ssh-ed25519", "ecdsa-sha2-nistp256", "rsa-sha2-256", "rsa-sha2-512", "ssh-rsa"}
 
 var remotes = []string{"192.0.2.7:4022", "10.1.2.3:22", "[2001:db8::7]:5000", "127.0.0.1:1", "nontcp"}
-var saLists = []string{"192.0.2.7", "192.0.2.0/24", "10.0.0.0/8", "2001:db8::/32", "2001:db8::7", "198.51.100.1", "198.51.100.0/24,192.0.2.7", "", "not-an-ip", "192.0.2.7/33", "not-an-ip,192.0.2.7", "192.0.2.8,,10.1.2.3", "0.0.0.0/0", "::/0"}
+var saLists = []string{"192.0.2.7", "192.0.2.0/24", "10.0.0.0/8", "2001:db8::/32", "2001:db8::7", "198.51.100.1", "198.51.100.0/24,192.0.2.7", "", "not-an-ip", "192.0.2.7/33", "not-an-ip,192.0.2.7", "192.0.2.8,,10.1.2.3", "0.0.0.0/0", "::/0", " 192.0.2.7", "192.0.2.7 ", "198.51.100.1, 192.0.2.7", "10.0.0.0/8 ", "\t2001:db8::7"}
 
 func genOutcome(r *rand.Rand, allowPartial bool) *Outcome {
 	switch k := r.IntN(10); {
@@ -132,9 +162,15 @@ func genReq(r *rand.Rand, long bool) Req {
 	case k < 19:
 		q.Method = "pk"
 		q.Key = keyNames[r.IntN(3)]
+		if r.IntN(8) == 0 {
+			q.Key = "ed25519-cert"
+		}
 		al := algosFor(q.Key)
 		q.Algo = al[r.IntN(len(al))]
-		q.Variant = []string{"query", "query", "valid", "valid", "valid", "wrong-session", "wrong-user", "wrong-service", "other-key", "sig-format", "trailing", "bad-algo-for-key"}[r.IntN(12)]
+		q.Variant = []string{"query", "query", "valid", "valid", "valid", "wrong-session", "wrong-user", "wrong-service", "other-key", "sig-format", "trailing", "bad-algo-for-key", "cert-algo"}[r.IntN(13)]
+		if q.Variant == "cert-algo" && q.Key == "ed25519-cert" {
+			q.Variant = "bad-algo-for-key"
+		}
 		if long {
 			q.Variant = "query"
 		}
@@ -239,6 +275,28 @@ func gen(r *rand.Rand, prop, tier string, index int) any {
 		s.CloseAfter = -1
 		return s
 	}
+	if !long && r.IntN(12) == 0 {
+		// the user name changes after a partial success, by way of requests
+		// that are refused anyway (none, a wrong password, a query), before
+		// a request the next stage accepts
+		s.Stages = []Stage{{Password: &Outcome{Kind: "partial"}}, {Password: &Outcome{Kind: "accept"}, PKOn: true, PK: map[string]*Outcome{"ed25519": {Kind: "accept"}}}}
+		s.PKAlgos = allPKAlgos
+		s.Verified = ""
+		if s.MaxAuthTries > 0 && s.MaxAuthTries < 4 {
+			s.MaxAuthTries = 6
+		}
+		s.Reqs = []Req{{Method: "password", Variant: "right"}}
+		for i, n := 0, 1+r.IntN(2); i < n; i++ {
+			q := []Req{{Method: "none"}, {Method: "password", Variant: "wrong"}, {Method: "pk", Key: "ed25519", Algo: "ssh-ed25519", Variant: "query"}, {Method: "unknown"}}[r.IntN(4)]
+			q.Bob = true
+			s.Reqs = append(s.Reqs, q)
+		}
+		last := []Req{{Method: "password", Variant: "right"}, {Method: "pk", Key: "ed25519", Algo: "ssh-ed25519", Variant: "valid"}}[r.IntN(2)]
+		last.Bob = true
+		s.Reqs = append(s.Reqs, last)
+		s.CloseAfter = -1
+		return s
+	}
 	if r.IntN(8) == 0 {
 		s.CloseAfter = r.IntN(len(s.Reqs) + 1)
 	}
@@ -311,7 +369,7 @@ type run struct {
 
 func keyName(k ssh.PublicKey) string {
 	for _, n := range keyNames {
-		if string(sshsim.Signers[n].PublicKey().Marshal()) == string(k.Marshal()) {
+		if string(signerOf(n).PublicKey().Marshal()) == string(k.Marshal()) {
 			return n
 		}
 	}
@@ -575,15 +633,20 @@ func (r *run) buildRequest(q Req, sid []byte) []byte {
 		req.Payload = append(str(nil), str(nil)...)
 	case "pk":
 		req.Method = "publickey"
-		signer := sshsim.Signers[q.Key]
+		signer := signerOf(q.Key)
 		blob := signer.PublicKey().Marshal()
 		algo := q.Algo
 		if q.Variant == "bad-algo-for-key" {
-			// an algorithm name of another key family for this key blob
+			// an algorithm name of another key family for this key blob; for
+			// the certificate, the plain algorithm name of the certified key
 			algo = "ssh-ed25519"
 			if q.Key == "ed25519" {
 				algo = "rsa-sha2-256"
 			}
+		}
+		if q.Variant == "cert-algo" {
+			// a plain key offered under the certificate algorithm name of its type
+			algo = q.Algo + certAlgoSuffix
 		}
 		if q.Variant == "query" {
 			req.Payload = append(append([]byte{0}, str([]byte(algo))...), str(blob)...)
@@ -604,7 +667,7 @@ func (r *run) buildRequest(q Req, sid []byte) []byte {
 		case "other-key":
 			// a valid signature over the right data, made by ANOTHER key of the same type
 			switch q.Key {
-			case "ed25519":
+			case "ed25519", "ed25519-cert":
 				sigSigner = sshsim.HostKey
 			case "ecdsa":
 				sigSigner = sshsim.Signers["ecdsap256"]
@@ -630,7 +693,7 @@ func (r *run) buildRequest(q Req, sid []byte) []byte {
 		data = append(data, 1)
 		data = append(data, str([]byte(signedAlgo))...)
 		data = append(data, str(blob)...)
-		sig, err := sigSigner.(ssh.AlgorithmSigner).SignWithAlgorithm(nil, data, sigAlgo)
+		sig, err := sigSigner.(ssh.AlgorithmSigner).SignWithAlgorithm(nil, data, underlying(sigAlgo))
 		if err != nil {
 			sig, _ = sigSigner.Sign(nil, data)
 		}
@@ -937,13 +1000,13 @@ func (r *run) evaluate(q Req, stage int, partial bool, sessionUser string) verdi
 			return verdict{kind: "publickey not configured", fails: true}
 		}
 		algo := q.Algo
-		if q.Variant == "bad-algo-for-key" {
+		if q.Variant == "bad-algo-for-key" || q.Variant == "cert-algo" {
 			return verdict{kind: "algorithm incompatible with the key", fails: true}
 		}
 		if q.Variant == "trailing" {
 			return verdict{kind: "malformed request", fails: true}
 		}
-		if !contains(s.PKAlgos, algo) {
+		if !contains(s.PKAlgos, underlying(algo)) {
 			return verdict{kind: "algorithm not allowed", fails: true}
 		}
 		if q.Variant == "query" {
